@@ -8,6 +8,12 @@ definitions (`Spec/OrderDomain.lean`) the theorems of `Props/C11.lean` are about
 the property is checked directly on Python's output with an independent Python oracle (one stable
 sort by the lexicographic BSON order of the key tuples, then a contiguous slice) and by
 comparing the entry points with one another.
+
+The model's value universe has no binary data, uuid, regular expression or non-finite double.
+Sort keys of EVERY kind of value `bson_compare` orders (those included, and embedded documents
+and arrays of them) are checked by a python-only oracle: the same call sequences over collections
+drawn by `WG`, judged against the reference implementation of the BSON comparison order in
+harness/c11_order.py (`run_wide`); the scenarios the wire can carry go through the model too.
 """
 import collections
 import copy
@@ -15,12 +21,16 @@ import datetime as _dt
 import functools
 import json
 import random
+import re as _re
+import uuid as _uuid
 
 import mongomock
 from mongomock import ObjectId
 
+import c11_order
 import common
 import wire
+from c11_order import Outside
 
 RULE = ('case = one call sequence (find with sort/skip/limit arguments followed by 0-4 cursor '
         'method calls or slices and a full iteration or an index; or count_documents with '
@@ -29,7 +39,12 @@ RULE = ('case = one call sequence (find with sort/skip/limit arguments followed 
         'under 1-3 sort keys; compared by _id sequence; non-trivial = the case sorts, at least '
         'two selected documents tie under the first sort key and the first key sees at least two '
         'BSON type classes (for histories: at least one rewrite or delete of a document that is '
-        'not the last); distinct = by hash of the wire line of the case')
+        'not the last); distinct = by hash of the wire line of the case; '
+        'every_kind_order_oracle: the same call sequences over collections of 2-8 documents whose '
+        'sort keys are drawn from every kind of value bson_compare orders (null, numbers incl. '
+        'non-finite and beyond 2^53, strings, embedded documents, arrays, binary data, uuid, '
+        'ObjectId, booleans, dates, regular expressions), compared by _id sequence with the '
+        'reference BSON order of harness/c11_order.py')
 
 ASSUMPTIONS = [
     'outside F (model answers "unmodelled"): sort keys reaching values nested deeper than a flat '
@@ -45,10 +60,19 @@ ASSUMPTIONS = [
     'a cursor is configured completely before its first iteration (reconfiguration after '
     'iteration started is not modelled); rewind() and clone() are checked directly',
     'error classes are not compared for C11 (only raised / did not raise)',
+    'binary data, uuid, regular expressions and non-finite doubles are outside the model\'s value '
+    'universe: sort keys of those kinds (and documents / arrays holding them) are judged by the '
+    'python-only reference order harness/c11_order.py, written from MongoDB\'s documented '
+    'comparison/sort order (binary data: length, subtype, bytes; bytes are subtype 0, uuid.UUID '
+    'subtype 4; regular expressions: pattern, then options; NaN below every number); no theorem '
+    'rests on it.  Decimal128, Timestamp, MinKey/MaxKey, DBRef need the bson package, which is '
+    'not installed',
 ]
 
-# no known finding is left: emptyslice, objectid and arraykey were repaired in the library
-FINDING_CLASSES = set()
+# emptyslice, objectid and arraykey were repaired in the library; what is listed now are deviations
+# from the BSON order among kinds of values outside the model's universe (found by the every-kind
+# order oracle, classified by harness/c11_order.py `flags_of`)
+FINDING_CLASSES = set(c11_order.FINDING_TEXT)
 SCOPE_CLASSES = {'dockey', 'awaredate', 'badpath', 'dollarkey', 'negskip', 'badlimit',
                  'genoid', 'nestedarray'}
 
@@ -168,6 +192,96 @@ class G(object):
         return {'b': r.choice([None, 1, 'a'])}
 
 
+# every kind of value bson_compare orders (mongomock/filtering.py `_get_compare_type`): the kinds
+# of the model's universe and those outside it (binary data, uuid, regular expressions,
+# non-finite doubles)
+W_KINDS = ['null', 'number', 'string', 'document', 'array', 'binary', 'uuid', 'objectid',
+           'boolean', 'date', 'regex']
+W_SCALARS = {
+    'null': [None],
+    'number': [0, 1, -1, 2, 0.5, 1.0, -0.0, 1.5, 2 ** 53, 2 ** 53 + 1, float(2 ** 53),
+               -2 ** 63, 2 ** 63 - 1, 1e300, float('inf'), float('-inf')],
+    'string': ['', 'a', 'b', 'B', 'ab', 'aa', 'a\x00', '\xe9', 'z', '\uffff', '\U00010000',
+               '10', '9'],
+    'binary': [b'', b'a', b'b', b'zz', b'abc', b'ab', b'\x00', b'\xff', b'a\x00', b'\x00\x00',
+               b'\x7f', b'\x80', b'0123456789abcdef', bytes(16), b'\xff' * 16],
+    'uuid': [_uuid.UUID(int=0), _uuid.UUID(int=1), _uuid.UUID(int=255), _uuid.UUID(int=256),
+             _uuid.UUID(int=2 ** 64), _uuid.UUID(int=2 ** 127), _uuid.UUID(int=2 ** 128 - 1)],
+    'objectid': [0, 1, 2, 255, 256, 999],          # numbers of wire.Oids
+    'boolean': [True, False],
+    'date': DATES + [_dt.datetime(1970, 1, 1), _dt.datetime(1, 1, 1),
+                     _dt.datetime(9999, 12, 31, 23, 59, 59, 999000),
+                     _dt.datetime(2020, 1, 1, 0, 0, 0, 1000)],
+    'regex': [('a', 0), ('b', 0), ('ab', 0), ('', 0), ('a', _re.I), ('a', _re.M),
+              ('a', _re.I | _re.M), ('^a', 0), ('B', _re.S)],
+}
+NAN = float('nan')
+
+
+class WG(G):
+    """collections whose sort keys are drawn from EVERY kind of value the comparison knows
+    (profile 'W'): per field either one kind (the rule inside the kind decides), two kinds, or
+    all of them; arrays and embedded documents hold items of every kind as well"""
+
+    def w_scalar(self, kind):
+        r = self.r
+        if kind == 'number' and r.random() < 0.03:
+            return NAN
+        v = r.choice(W_SCALARS[kind])
+        if kind == 'objectid':
+            return self.oids.make(v)
+        if kind == 'regex':
+            return _re.compile(v[0], v[1])
+        return v
+
+    def w_value(self, kinds, depth=0):
+        r = self.r
+        kind = r.choice(kinds)
+        if kind in ('array', 'document') and depth >= 2:
+            kind = r.choice(['number', 'string', 'binary', 'boolean', 'null'])
+        if kind == 'array':
+            inner = self.w_kinds(scalar_only=depth >= 1 and r.random() < 0.7)
+            return [self.w_value(inner, depth + 1) for _ in range(r.choice([0, 1, 2, 2, 3]))]
+        if kind == 'document':
+            inner = self.w_kinds(scalar_only=r.random() < 0.7)
+            names = r.sample(['x', 'y', 'z'], r.choice([0, 1, 1, 2, 2]))
+            if 'x' not in names and names and r.random() < 0.5:
+                names[0] = 'x'
+            return {k: self.w_value(inner, depth + 1) for k in names}
+        return self.w_scalar(kind)
+
+    def w_kinds(self, scalar_only=False):
+        r = self.r
+        pool = [k for k in W_KINDS if not (scalar_only and k in ('array', 'document'))]
+        x = r.random()
+        if x < 0.45:
+            # (two regular expressions under one key are a listed deviation: no field of those)
+            return [r.choice([k for k in pool if k != 'regex'])]
+        if x < 0.65:
+            return r.sample(pool, 2)
+        return pool
+
+    def docs(self):
+        r = self.r
+        n = r.choice([2, 3, 3, 4, 4, 5, 5, 6, 7, 8])
+        alpha = {}
+        for f in FIELDS:
+            kinds = self.w_kinds()
+            alpha[f] = [self.w_value(kinds) for _ in range(r.choice([2, 3, 3, 4, 5, 6]))]
+        pmiss = r.choice([0.0, 0.1, 0.25])
+        ids = list(range(n))
+        if r.random() < 0.15:
+            ids = r.sample([0, 1, 2, 3, 4, 5, 6, 7, 8, 9, 'a', 'b', 1.5], n)
+        out = []
+        for i in range(n):
+            d = {'_id': ids[i]}
+            for f in FIELDS:
+                if r.random() >= pmiss:
+                    d[f] = copy.deepcopy(r.choice(alpha[f]))
+            out.append(d)
+        return out, 'W'
+
+
 def dedup_keys(spec):
     """a `$sort` document cannot repeat a key"""
     seen, out = set(), []
@@ -178,8 +292,8 @@ def dedup_keys(spec):
     return out
 
 
-def gen_scenario(rng):
-    g = G(rng)
+def gen_scenario(rng, gcls=None):
+    g = (gcls or G)(rng)
     docs, profile = g.docs()
     n = len(docs)
     filt = g.filter()
@@ -400,10 +514,6 @@ def py_history(ops):
 # ------------------------------------------------------------------------------------------
 # independent Python oracle (the rules of the property, on Python values)
 
-class Outside(Exception):
-    pass
-
-
 def o_class(v):
     if v is None:
         return 2
@@ -422,31 +532,8 @@ def o_class(v):
     raise Outside(type(v).__name__)
 
 
-O_MISSING = object()
-
-
-def o_reach(cur, comps):
-    """the values the path reaches, branching through arrays of sub-documents (MISSING where a
-    sub-document lacks the field or the path dead-ends on a scalar)"""
-    if not comps:
-        return [cur]
-    comp = comps[0]
-    if comp == '':
-        raise Outside('badpath')
-    if isinstance(cur, dict):
-        if comp not in cur:
-            return [O_MISSING]
-        return o_reach(cur[comp], comps[1:])
-    if isinstance(cur, list):
-        if comp.lstrip('-').isdigit():
-            raise Outside('arrayindex')      # positional paths: left to the Lean oracle
-        out = []
-        for item in cur:
-            if not isinstance(item, dict):
-                raise Outside('scalar-in-array')   # what such an item contributes: not stated
-            out.extend(o_reach(item, comps))
-        return out
-    return [O_MISSING]               # the path dead-ends: missing, sorts as null
+O_MISSING = c11_order.MISSING
+o_reach = c11_order.reach
 
 
 def o_scalar_key(v):
@@ -491,19 +578,21 @@ def o_cmp(x, y):
     return 0
 
 
-def o_sorted(docs, spec):
-    """one stable sort by the lexicographic order of the key tuples"""
+def o_sorted(docs, spec, keyf=None, cmpf=None):
+    """one stable sort by the lexicographic order of the key tuples (keyf / cmpf: how the key of
+    a document is found and how two keys compare — the model's universe by default)"""
+    keyf, cmpf = keyf or o_key, cmpf or o_cmp
     if not spec:
         return list(docs)
     if len(spec) == 1 and spec[0][0] == '$natural':
         return list(reversed(docs)) if spec[0][1] < 0 else list(docs)
     if any(k.startswith('$') for k, _ in spec):
         raise Outside('dollarkey')
-    keyed = [([o_key(d, k, direction < 0) for k, direction in spec], d) for d in docs]
+    keyed = [([keyf(d, k, direction < 0) for k, direction in spec], d) for d in docs]
 
     def cmp(a, b):
         for (ka, kb, (_, direction)) in zip(a[0], b[0], spec):
-            c = o_cmp(ka, kb)
+            c = cmpf(ka, kb)
             if c:
                 return -c if direction < 0 else c
         return 0
@@ -540,7 +629,40 @@ def o_settings(spec, skip, limit, ops):
     return sort, skip, lim
 
 
-def o_find(selected, case):
+def w_sorted(docs, spec):
+    """the same stable sort, by the reference BSON order over every kind of value"""
+    return o_sorted(docs, spec, c11_order.ref_key, c11_order.key_cmp)
+
+
+def o_agg(selected, stages, sorter=o_sorted):
+    """what a pipeline of $sort / $skip / $limit stages gives: ids, or '!Error'"""
+    cur = list(selected)
+    rejected = False
+    for st in stages:
+        if st[0] != 'sort' and isinstance(st[1], float) and st[1].is_integer():
+            st = [st[0], int(st[1])]    # a whole-number double is that integer
+        if st[0] == 'sort':
+            cur = sorter(cur, st[1])
+        elif st[1] < 0 or (st[0] == 'limit' and st[1] == 0):
+            # a negative $skip, a $limit that is not positive: the pipeline is
+            # rejected, wherever the stage stands
+            rejected = True
+        elif st[0] == 'skip':
+            cur = cur[st[1]:]
+        else:
+            cur = cur[:st[1]]
+    return '!Error' if rejected else [d['_id'] for d in cur]
+
+
+def o_count(selected, case):
+    """count_documents(skip, limit): the length of the slice; None = no claim"""
+    _, _f, skip, limit = case
+    if skip >= 0 and (limit is None or (isinstance(limit, int) and limit > 0)):
+        return len(selected[skip:] if limit is None else selected[skip:][:limit])
+    return None
+
+
+def o_find(selected, case, sorter=o_sorted):
     _, _filt, spec, skip, limit, ops, final = case
     try:
         sort, skip, lim = o_settings(spec, skip, limit, ops)
@@ -548,7 +670,7 @@ def o_find(selected, case):
         return '!Error'
     if skip < 0:
         raise Outside('negskip')
-    res = o_sorted(selected, sort)[skip:]
+    res = sorter(selected, sort)[skip:]
     if lim is not None:
         res = res[:lim]
     if final is None:
@@ -740,28 +862,11 @@ def run_scenarios(ctx, scs, judge, stats):
                     po = o_find(sel, case)
                     py_oracle = canon_py(po, sc['oids'])
                 elif case[0] == 'count':
-                    _, _f, skip, limit = case
-                    if skip >= 0 and (limit is None or (isinstance(limit, int) and limit > 0)):
-                        n = len(sel[skip:] if limit is None else sel[skip:][:limit])
+                    n = o_count(sel, case)
+                    if n is not None:
                         py_oracle = 'I%d' % n
                 elif case[0] == 'agg':
-                    cur = list(sel)
-                    rejected = False
-                    for st in case[1]:
-                        if st[0] != 'sort' and isinstance(st[1], float) and st[1].is_integer():
-                            st = [st[0], int(st[1])]    # a whole-number double is that integer
-                        if st[0] == 'sort':
-                            cur = o_sorted(cur, st[1])
-                        elif st[1] < 0 or (st[0] == 'limit' and st[1] == 0):
-                            # a negative $skip, a $limit that is not positive: the pipeline is
-                            # rejected, wherever the stage stands
-                            rejected = True
-                        elif st[0] == 'skip':
-                            cur = cur[st[1]:]
-                        else:
-                            cur = cur[:st[1]]
-                    py_oracle = '!Error' if rejected else \
-                        canon_py([d['_id'] for d in cur], sc['oids'])
+                    py_oracle = canon_py(o_agg(sel, case[1]), sc['oids'])
             except Outside:
                 py_oracle = None
             lines.append(line)
@@ -802,9 +907,10 @@ def effective_sort(case):
         return None
 
 
-def check_family(ctx, sc, fam):
+def check_family(ctx, sc, fam, render=None):
     """find(sort=,skip=,limit=) = .sort().skip().limit() = negative limit = slice = aggregate,
     and count_documents = the length (stated on python's outputs alone)"""
+    render = render or globals()['render']
     if not fam or fam[0][0][0] != 'find':
         return
     base = fam[0][1]
@@ -828,6 +934,164 @@ def check_family(ctx, sc, fam):
             # the constructor form worked, an equivalent call sequence raised
             ctx.violation(dict(render(sc, case), kind='an equivalent call sequence raises',
                                this=py, find_with_arguments=wire.pretty(base)))
+
+
+# ------------------------------------------------------------------------------------------
+# the order over every kind of value: python-only oracle (harness/c11_order.py)
+
+WIDE_WHAT = {'find': 'find/cursor output is not the contiguous skip/limit slice of the stable '
+                     'sort by the BSON comparison order of the sort keys',
+             'agg': 'aggregate output is not the stable sorts by the BSON comparison order / the '
+                    'contiguous slices its $sort/$skip/$limit stages ask for',
+             'count': 'count_documents(skip, limit) is not the length of the corresponding slice'}
+
+
+def pretty_w(v):
+    """wire.pretty, with non-finite doubles spelled out (a replay file is plain JSON)"""
+    if isinstance(v, dict):
+        return {k: pretty_w(x) for k, x in v.items()}
+    if isinstance(v, (list, tuple)):
+        return [pretty_w(x) for x in v]
+    if isinstance(v, float) and (v != v or v in (float('inf'), float('-inf'))):
+        return 'float(%r)' % v
+    return wire.pretty(v)
+
+
+def render_wide(sc, case, line=None):
+    """the readable case, and under 'wide' the exact input (c11_order.jenc) a replay rebuilds"""
+    try:
+        wide = {'docs': c11_order.jenc(sc['docs']), 'case': c11_order.jenc(list(case))}
+    except Outside:
+        wide = None
+    return {'kind': case[0], 'docs': [pretty_w(d) for d in sc['docs']],
+            'call': pretty_w(list(case[1:])), 'wide': wide}
+
+
+def wide_case_of(e):
+    """(scenario, case) of a replay / witness written by render_wide"""
+    docs = c11_order.jdec(e['wide']['docs'])
+    case = tuple(c11_order.jdec(e['wide']['case']))
+    return {'docs': docs, 'oids': wire.Oids(), 'cases': [case], 'profile': 'W'}, case
+
+
+def all_sorts(case):
+    """every sort specification a case sorts by"""
+    if case[0] == 'agg':
+        return [st[1] for st in case[1] if st[0] == 'sort']
+    if case[0] == 'find':
+        s = effective_sort(case)
+        return [s] if s else []
+    return []
+
+
+def wide_expected(sel, case):
+    """what the rules ask of the case, by the reference order; None = no claim"""
+    try:
+        if case[0] == 'find':
+            return o_find(sel, case, w_sorted)
+        if case[0] == 'agg':
+            return o_agg(sel, case[1], w_sorted)
+        return o_count(sel, case)
+    except Outside:
+        return None
+
+
+def wide_norm(out):
+    if isinstance(out, str) and out.startswith('!'):
+        return 'E'
+    return out
+
+
+class WideJudge(object):
+    def __init__(self, ctx):
+        self.ctx = ctx
+        self.known = {e['id'] for e in common.load_known('C11') if e.get('status') == 'known'}
+        self.n = collections.Counter()
+        self.kinds = collections.Counter()
+        self.brackets = collections.Counter()
+        self.within = collections.Counter()
+        self.findings = collections.Counter()
+        self.errors = collections.Counter()
+        self.nontrivial = set()
+        self.samples = []
+
+
+def run_wide(ctx, scs, wj):
+    """the property on python's output alone, for sort keys of every kind: the order of
+    find().sort(), of a sorted cursor with skip / limit / slices and of $sort is the reference
+    order; deviations in a listed class (c11_order.FINDING_TEXT) are known findings"""
+    for sc in scs:
+        coll = mk_coll(sc['docs'])
+        stored = list(coll.find())
+        sel_cache = {}
+        fam = []
+        wj.n['scenarios'] += 1
+        for case in sc['cases']:
+            py, extra = py_case(coll, case)
+            wj.n['cases'] += 1
+            wj.kinds[case[0]] += 1
+            if isinstance(py, str):
+                wj.errors[py[1:]] += 1
+            if isinstance(py, list):
+                for k in ('rewind', 'clone'):
+                    if k in extra and extra[k] != py:
+                        ctx.violation(dict(render_wide(sc, case), kind='%s() changes what the '
+                                           'cursor returns' % k, first=wire.pretty(py),
+                                           again=wire.pretty(extra[k])))
+            fam.append((case, py))
+            if case[0] == 'agg':
+                sel = stored
+            else:
+                fk = repr(case[1])
+                if fk not in sel_cache:
+                    sel_cache[fk] = selected_docs(coll, case[1])
+                sel = sel_cache[fk]
+            exp = wide_expected(sel, case)
+            if exp is None:
+                wj.n['no_claim'] += 1
+                continue
+            wj.n['checked'] += 1
+            sorts = all_sorts(case)
+            if wide_norm(py) != wide_norm(exp):
+                flags = c11_order.flags_of(sel, sorts)
+                if flags & wj.known:
+                    for f in flags & wj.known:
+                        wj.findings[f] += 1
+                        ctx.known_seen[f] = ctx.known_seen.get(f, 0) + 1
+                    continue
+                r = dict(render_wide(sc, case), kind=WIDE_WHAT[case[0]],
+                         py=wire.pretty(py if not isinstance(py, tuple) else list(py)),
+                         expected=wire.pretty(exp if not isinstance(exp, tuple) else list(exp)),
+                         oracle='reference BSON comparison order (harness/c11_order.py)')
+                if flags:
+                    r['deviation_classes_not_listed_as_known'] = sorted(flags)
+                ctx.violation(r, rank=len(json.dumps(r, default=repr)))
+                continue
+            if sorts and not isinstance(py, str) and (
+                    case[0] == 'find' or (case[0] == 'agg' and case[1][0][0] == 'sort')):
+                seen, within = c11_order.first_key_brackets(sel, sorts[0])
+                for b in seen:
+                    wj.brackets[b] += 1
+                for b in within:
+                    wj.within[b] += 1
+                if within and len(seen) >= 2:
+                    h = common.case_hash(repr((sc['docs'], case)))
+                    if h not in wj.nontrivial:
+                        wj.nontrivial.add(h)
+                        if len(wj.samples) < 2 and len(sel) >= 4 and (
+                                {'binary', 'regex'} & set(seen)):
+                            wj.samples.append(dict(render_wide(sc, case), wide=None,
+                                                   python=wire.pretty(py)))
+        check_family(ctx, sc, fam, render_wide)
+
+
+def wide_encodable(sc):
+    try:
+        for c in sc['cases']:
+            enc_case(sc, c)
+        return True
+    except wire.Unencodable:
+        return False
 
 
 def run_histories(ctx, n, rng, judge, stats):
@@ -954,6 +1218,20 @@ def run(ctx, proof, driver_ok):
             sizes[str(len(sc['docs']))] += 1
         run_scenarios(ctx, scs, judge, stats)
     run_histories(ctx, nh, rng, judge, stats)
+    # sort keys of every kind of value: the reference order on python's output; the scenarios the
+    # wire can carry also go through the model
+    nw = ctx.n(1500, 25000)
+    wrng = random.Random(ctx.seed * 1000003 + 2222)
+    wj = WideJudge(ctx)
+    wdone = 0
+    wmodel = 0
+    while wdone < nw and not ctx.too_many():
+        scs = [gen_scenario(wrng, WG) for _ in range(min(batch, nw - wdone))]
+        wdone += len(scs)
+        run_wide(ctx, scs, wj)
+        enc = [sc for sc in scs if wide_encodable(sc)]
+        wmodel += len(enc)
+        run_scenarios(ctx, enc, judge, stats)
     if judge.internal:
         raise RuntimeError('model and oracle differ inside D (contradicts the theorems): %r'
                            % judge.internal[:2])
@@ -975,6 +1253,22 @@ def run(ctx, proof, driver_ok):
         'profile_histogram': dict(profiles),
         'first_key_type_classes_histogram': dict(sorted(stats['first_key_classes'].items())),
         'sort_key_count_histogram': dict(sorted(stats['sort_keys'].items())),
+        'every_kind_order_oracle': {
+            'what': 'python-only: find().sort / sorted cursor with skip, limit, slices / $sort '
+                    'over sort keys drawn from every kind of value bson_compare orders, against '
+                    'the reference order harness/c11_order.py',
+            'scenarios': wdone, 'scenarios_also_through_the_model': wmodel,
+            'cases': wj.n['cases'], 'checked': wj.n['checked'], 'no_claim': wj.n['no_claim'],
+            'case_kinds': dict(wj.kinds),
+            'distinct_nontrivial': len(wj.nontrivial),
+            'nontrivial_rule': 'the case sorts, its first key sees at least two brackets and two '
+                               'documents with different keys inside one bracket',
+            'first_key_brackets_histogram': dict(sorted(wj.brackets.items())),
+            'first_key_decided_inside_bracket_histogram': dict(sorted(wj.within.items())),
+            'deviations_in_known_classes': dict(wj.findings),
+            'python_error_kinds': dict(wj.errors),
+            'samples': wj.samples,
+        },
     }
 
 
@@ -995,6 +1289,16 @@ def replay(ctx, path):
         print(json.dumps({'python': wire.pretty(final), 'violations': len(ctx.violations)},
                          default=repr))
         return common.finish(ctx)
+    if e.get('wide'):
+        sc, case = wide_case_of(e)
+        run_wide(ctx, [sc], WideJudge(ctx))
+        py, _ = py_case(mk_coll(sc['docs']), case)
+        exp = wide_expected(selected_docs(mk_coll(sc['docs']), case[1])
+                            if case[0] != 'agg' else list(mk_coll(sc['docs']).find()), case)
+        print(json.dumps({'python': wire.pretty(py if not isinstance(py, tuple) else py[1]),
+                          'expected': wire.pretty(exp if not isinstance(exp, tuple) else exp[1]),
+                          'violations': len(ctx.violations)}, default=repr))
+        return common.finish(ctx)
     run_line(ctx, e['line'], judge, stats)
     sc, case = case_of_line(e['line'])
     py, _ = py_case(mk_coll(sc['docs']), case)
@@ -1006,6 +1310,12 @@ def replay(ctx, path):
 
 def replay_finding(ctx, e):
     """does the listed witness still deviate from the rules on the real code?"""
+    if e['witness'].get('wide'):
+        sc, case = wide_case_of(e['witness'])
+        coll = mk_coll(sc['docs'])
+        py, _ = py_case(coll, case)
+        sel = list(coll.find()) if case[0] == 'agg' else selected_docs(coll, case[1])
+        return wide_norm(py) != wide_norm(wide_expected(sel, case))
     sc, case = case_of_line(e['witness']['line'])
     py, _ = py_case(mk_coll(sc['docs']), case)
     got = canon_py(py, sc['oids'])
